@@ -2,7 +2,7 @@
    Property theorems only; proofs are in Proofs/HistoryP.v. *)
 From Coq Require Import String.
 From Model Require Import Base Uni Utf8 Notation Inputrc HistFile Editor.
-From Proofs Require Import EditorP BoundsP HistoryP.
+From Proofs Require Import EditorP BoundsP HistoryP WalkP.
 Open Scope Z_scope.
 
 (* (c) the search loop of history-search-* only ever returns a stored entry, at its own
@@ -34,8 +34,37 @@ Proof. exact h_walk_total. Qed.
 Theorem C09_save_never_fails : forall e, exists e', h_save e = Ok e'.
 Proof. exact h_save_total. Qed.
 
-(* (a), (b) on a concrete run through the command interpreter (the general statement for
-   every history is checked by the correspondence run, not proved): three entries, "ec"
+(* (a), (b) for EVERY history, every line being entered and every sequence of Sources.Walk
+   calls of any size and sign (previous-history = Walk 1, next-history = Walk -1,
+   beginning-of-history = Walk n, end-of-history = Walk (1 - n), up/down-line-or-history
+   with any count): the buffer shows the k-th newest stored entry, k being the position
+   of the abstract walk `astep` (0 = the line being entered, kept within [0, n]), and when
+   that position is back to 0 the buffer is the line that was being entered. *)
+Theorem C09_walks_show_the_entries_in_order : forall mk ps e, 0 < zlen (hist e) -> hpos e = -1 -> clean e ->
+  exists e', walks mk ps e = Ok e' /\ hist e' = hist e /\
+    let k := fold_left (astep (zlen (hist e))) ps 0 in
+    (k = 0 -> hpos e' = -1 /\ line e' = line e) /\
+    (0 < k -> hpos e' = k /\ line e' = entry e k).
+Proof. exact walks_show_the_entries. Qed.
+
+(* (a) j times previous-history: the j-th newest entry, the oldest once j > n *)
+Theorem C09_previous_history_shows_the_jth_newest : forall mk j e, 0 < zlen (hist e) -> hpos e = -1 -> clean e -> (0 < j)%nat ->
+  exists e', walks mk (repeat 1 j) e = Ok e' /\ hist e' = hist e /\ line e' = entry e (Z.min (zlen (hist e)) (Z.of_nat j)).
+Proof. exact ups_show_the_jth_newest. Qed.
+
+(* (b) any walk, then steps down adding up to at least the length of the history: the line
+   being entered is back, whatever the sizes of the steps *)
+Theorem C09_walking_back_down_restores_the_line : forall mk ps downs e, 0 < zlen (hist e) -> hpos e = -1 -> clean e ->
+  Forall (fun d => d < 0) downs -> fold_left Z.add downs 0 <= - zlen (hist e) ->
+  exists e', walks mk (ps ++ downs) e = Ok e' /\ hist e' = hist e /\ hpos e' = -1 /\ line e' = line e.
+Proof. exact walking_back_down_restores_the_line. Qed.
+
+(* non-vacuity: a fresh call on a history of three entries is such a state *)
+Example C09_walk_example : 0 < zlen (hist (ed_init false [zs "ls"; zs "echo a"; zs "pwd"]%string)) /\
+  hpos (ed_init false [zs "ls"; zs "echo a"; zs "pwd"]%string) = -1 /\ clean (ed_init false [zs "ls"; zs "echo a"; zs "pwd"]%string).
+Proof. split; [vm_compute; reflexivity|]. split; [reflexivity|]. intros k Hk. unfold ed_init. cbn [lines lh_get]. replace (-1 =? k) with false by lia. reflexivity. Qed.
+
+(* (a), (b) on a concrete run through the command interpreter (Save + Walk per command): three entries, "ec"
    typed, up x4 shows them newest first and stays on the oldest, down x4 restores "ec";
    history-search-backward from "ec" finds "echo a" *)
 Definition c09_hist : list (list Z) := [zs "ls"; zs "echo a"; zs "pwd"]%string.
